@@ -232,7 +232,7 @@ def _run_one(case, ctx):
     m0 = recipes.fresh(case["recipe"])
     if adapters.is_leaf(m0):
         raise monitor.OutOfScope()
-    graph, top, info = common.domain(m0, allow_prefixed=True)
+    graph, top, info = common.domain(m0, allow_prefixed=True, recipe=case["recipe"])
     for x_ in case.get("interps", []):
         x_ = {k_: v_ for k_, v_ in x_.items() if k_ in graph}
         ctx.call("evaluate_propositions", recipes.fresh(case["recipe"]).evaluate_propositions, common.interp(rng, x_))
